@@ -13,7 +13,25 @@ RULE = ("behaviours = all API call sequences of the stated depth over the GenTR 
 
 def run(chk):
     tc.model_check(chk, chk.tier == "quick", parts=("main",), small=True)
-    tc.standard_plan(chk, "C01", "nt_C01", kinds_quick=("sort", "batchvisual"))
+    tc.standard_plan(chk, "C01", "nt_C01", kinds_quick=("sort", "batchsort"))
+    quick = chk.tier == "quick"
+    # multi-scene batches through both batch trackers, several voters, seeded delays at the hook sites
+    for name, kw in (("batch-d2", dict(depth=2, kind="batch", MaxIdle=0, MaxDets=1 if quick else 2)),
+                     ("batch-sim", dict(depth=30, kind="batch", MaxIdle=1, MaxDets=1, sim=6, simulate={"num": 4 if quick else 25, "depth": 31}))):
+        r, c = tc.generate(chk, name, **kw)
+        for kind in ("batchsort", "batchvisual"):
+            for ns, nv in (((2, 3),) if quick else ((1, 2), (2, 3), (3, 4))):
+                args = tc.vh_args(c, kind, ns, "C01", voters=nv) + ["--delay-us", "400", "--seed", str(chk.seed)]
+                rep = vlib.run_vh(args, [r.out])
+                rep["nontrivial"] = rep["counters"].get("nt_C06", 0)
+                chk.add_report(f"{name}:{kind}:ns={ns}:nv={nv}", rep)
+                chk.classify("tracker", args, rep)
+    # VisualSORT with features: look-alike detections claiming one track in the same call
+    for name, kw, sim in (("v-sim7", dict(depth=7, Sim=6), {"num": 25 if quick else 300, "depth": 8}),
+                          ("v-d2", dict(depth=2, MaxDets=2, Slots={1}, Confs={900}, Feats={1, 2}, Quals={30, 90}), None)):
+        r, c = tc.generate_visual(chk, name, simulate=sim, **kw)
+        for kind in ("visual", "batchvisual"):
+            tc.replay_visual(chk, name, r, c, kind, 2, "C01", "nt_C12")
     # R2: random free-world histories (moving, crossing, disappearing objects; lifecycle calls interleaved)
     from checks import r2_common as r2
     traces = []
